@@ -10,7 +10,31 @@ from ..astutil import bool_skeleton
 
 
 def rule_run_inside_stores(ctx, r1, labels=("backend", "spec hashes")):
-    """`gwf run` calls submit_workflow inside the with-blocks of the state stores and hands it the managed objects."""
+    """`gwf run` calls submit_workflow inside the with-blocks of the state stores and hands it the managed objects; when the shape is not
+    recognised (ExitStack, nested with, helpers) the run command evaluated with a rejected k-th submission and a failing hash-file write decides."""
+    from ..report import Rule
+    from .evalhelpers import cached_witness, run_command_witness
+    tmp = Rule(ctx, r1.id, r1.title, detached=True)
+    _run_inside_stores_structural(ctx, tmp, labels)
+    bad = [i for i in tmp.instances if i["verdict"] == "VIOLATION"]
+    if bad:
+        n_w, diffs, unsup = cached_witness(ctx, "run", run_command_witness)
+        diffs = [d for d in diffs if "store" in d or "closed" in d or "saved" in d or "ends with" in d or "forgotten" in d]
+        if unsup is None and not diffs:
+            for i in tmp.instances:
+                if i["verdict"] == "ok":
+                    r1.ok(i["construct"], i["detail"], i["where"])
+            r1.ok(bad[0]["construct"] + "::witness", f"shape not recognised; {n_w} evaluated invocations (rejected k-th submission, failing hash-file write) close both stores on every exit",
+                  bad[0]["where"])
+            return
+    for i in tmp.instances:
+        if i["verdict"] == "ok":
+            r1.ok(i["construct"], i["detail"], i["where"])
+        elif i["verdict"] == "VIOLATION":
+            r1.violation(i["construct"], i["detail"], i["where"])
+
+
+def _run_inside_stores_structural(ctx, r1, labels=("backend", "spec hashes")):
     idx = ctx.index
     run_f = idx.func("gwf.plugins.run:run")
     rcon = f"{run_f.module.relpath}::{run_f.qual}"
